@@ -368,6 +368,12 @@ func (rp *ReverseProxy) ServeHTTP(rw http.ResponseWriter, outreq *http.Request, 
 	if err != nil {
 		return err
 	}
+	if res.StatusCode < 100 || res.StatusCode > 999 {
+		// not a status a response writer accepts (it panics): the
+		// backend failed, like with any other malformed response
+		res.Body.Close()
+		return fmt.Errorf("proxy: malformed status code %d from backend", res.StatusCode)
+	}
 
 	isWebsocket := res.StatusCode == http.StatusSwitchingProtocols && strings.EqualFold(res.Header.Get("Upgrade"), "websocket")
 
